@@ -111,6 +111,17 @@ def identity_measure(ck, rule, rcmp):
     ck.floor(f"{rule} identity expressions judged", n, 1)
 
 
+def _dict_of_zip(dv):
+    """dict(zip((key(a) for a in XS), XS)) is the dictionary comprehension {key(a): a for a in XS}"""
+    if dv[0] == "call" and dv[1] == "dict" and len(dv[2]) == 1 and dv[2][0][0] == "call" and dv[2][0][1] == "zip" and len(dv[2][0][2]) == 2:
+        zk, zv = dv[2][0][2]
+        if zk[0] == "comp" and zk[1] in ("gen", "list", "tuple") and len(zk[3]) == 1 and not zk[3][0][1] and zk[3][0][0] == zv:
+            kb = [x for x in T.subterms(zk[2]) if x[0] == "bv"]
+            if kb and len(set(kb)) == 1:
+                return ("comp", "dict", (zk[2], kb[0]), ((zv, ()),))
+    return dv
+
+
 def no_mutable_defaults(ck, rule, modules):
     """A default value is evaluated once, when the function is defined: a list / dict / set default that the function fills is one
     object for the whole process - the second comparison starts with the rows of the first."""
@@ -240,6 +251,7 @@ def run(ck):
     dparam = V(dict_fn.call_params()[0].name)
     okd = False
     found = T.show(dv)[:200]
+    dv = _dict_of_zip(dv)
     if dv[0] == "comp" and dv[1] == "dict" and len(dv[3]) == 1 and not dv[3][0][1]:
         (k, val), src = dv[2], dv[3][0][0]
         while src[0] == "call" and src[1] in ("sorted", "list", "tuple", "reversed") and src[2]:
@@ -272,6 +284,12 @@ def run(ck):
     key, val = T.mk_idx(bv, C(0)), T.mk_idx(bv, C(1))
     ok = it == ("mcall", D1, "items", (), ()) and list(ifs) == [("in", key, D2)] and \
         dict(elt[3]) == {"alignment1": val, "alignment2": T.mk_idx(D2, key)}
+    if not ok and it == D1 and list(ifs) == [("in", bv, D2)]:
+        ok = dict(elt[3]) == {"alignment1": T.mk_idx(D1, bv), "alignment2": T.mk_idx(D2, bv)}
+    if not ok and it[0] == "comp" and len(it[3]) == 1 and it[3][0][0] == D1 and it[2][0] == "bv" and \
+            list(it[3][0][1]) == [("in", it[2], D2)] and not ifs:
+        # the shared keys named first: [compare(D1[k], D2[k]) for k in [k for k in D1 if k in D2]]  (iterating a dict gives its keys)
+        ok = dict(elt[3]) == {"alignment1": T.mk_idx(D1, bv), "alignment2": T.mk_idx(D2, bv)}
     ck.judge(ok, "C19.1", short(cmp_fn) + ":compared", w, "compared rows = keys of the first set that are in the second, paired with "
              "the second set's alignment of the same key", found=T.show(part)[:300],
              required="[compare(a1, D2[k]) for k, a1 in D1.items() if k in D2]")
@@ -318,7 +336,7 @@ def run(ck):
     todict = p.get_function(D1[1])
     for pa in explore(ck, todict):
         if pa.outcome == "return":
-            dv = pa.value
+            dv = _dict_of_zip(pa.value)
             okd = dv[0] == "comp" and dv[1] == "dict"
             if okd:
                 k, val = dv[2]
